@@ -167,6 +167,15 @@ def tile_index_shape(F):
     return [bad("R-LAYOUT", inst, fn.loc(r[0]["id"]), fn.qn, req, "found %s" % fmt_term(t))]
 
 
+def tile_index_refuses_only_outside(F, S):
+    """R-GUARD: the coordinate-to-index function refuses nothing, or exactly the coordinates outside the map
+    (x >= widthInTiles, y >= heightInTiles): any other refusal turns away tiles that exist."""
+    from ..rules_stream import r_guard_exact
+    fn = F.fn(M + "::GetTileIndex", nparams=2)
+    return r_guard_exact(F, Engine(F, S), fn, [(P(fn, 0), ("mem", ("this",), "widthInTiles"), True), (P(fn, 1), ("mem", ("this",), "heightInTiles"), True)],
+                         optional=True, no_other=True)
+
+
 def dimensions(F, S):
     out = []
     for name, field in (("WidthInTiles", "widthInTiles"), ("HeightInTiles", "heightInTiles")):
@@ -237,6 +246,7 @@ def check(F, run, tier):
     run.add(cell_type_guard(F, S))
     run.add(mapping_getters(F))
     run.add(tile_index_shape(F))
+    run.add(tile_index_refuses_only_outside(F, S))
     run.add(dimensions(F, S))
     # a bounds refusal guarding a subscript (however the lookup is packaged) refuses exactly the out-of-range indices
     from ..rules_stream import subscript_guards_exact
